@@ -559,13 +559,42 @@ impl Prop for C10 {
                 cx.nontrivial(crate::rt::prng::byteshash(&bytes));
             }
             "ir-scale" => {
-                let n = 512usize << (cx.n / 2);
+                // n = 100 * shape + 2 * size index + path; shapes: 0 one structure with many elements, 1 many structures of one element,
+                // 2 one element with many properties, 3 one reference followed by a long run of MAG records
+                let (shape, k) = (cx.n / 100, cx.n % 100);
+                // base sizes chosen so that a per-item scan over everything read so far would dominate the linear cost at the larger sizes,
+                // and so that recursion proportional to a run length would exhaust the stack
+                let base = match shape { 1 => 4096usize, 3 => 65536, _ => 512 };
+                let n = base << (k / 2);
                 let mut rng = Rng::new(0x1A5C); // the same element stream at every size (prefix-extended), independent of the seed
                 let cfg = GenCfg { strclass: StrClass::Ascii, maxstr: 8, wide_reals: false, max_structs: 1, max_elems: 0, max_pts: 5 };
-                let elems: Vec<NElem> = (0..n).map(|_| { let kind = rng.usize(7); rand_elem(&mut rng, &cfg, kind, None, None, Some(0), &[]) }).collect();
-                let ast = NLib { version: 600, name: b"ir".to_vec(), units: (encode_ref(1e-3).unwrap(), encode_ref(1e-9).unwrap()), structs: vec![NStruct { dates: [0; 12], name: b"s".to_vec(), elems }], ..Default::default() };
+                let mut elems: Vec<NElem> = (0..if shape == 3 { 1 } else { n }).map(|_| { let kind = rng.usize(7); rand_elem(&mut rng, &cfg, kind, None, None, Some(0), &[]) }).collect();
+                let structs = match shape {
+                    1 => elems.drain(..).enumerate().map(|(i, e)| NStruct { dates: [0; 12], name: format!("s{}", i).into_bytes(), elems: vec![e] }).collect(),
+                    2 => {
+                        let props: Vec<(i16, Vec<u8>)> = (0..n).map(|i| ((i % 120) as i16 + 1, b"pv".to_vec())).collect();
+                        vec![NStruct { dates: [0; 12], name: b"s".to_vec(), elems: vec![NElem { elflags: None, plex: None, kind: NKind::Boundary { layer: 1, datatype: 0, xy: vec![0, 0, 4, 0, 4, 4, 0, 0] }, props }] }]
+                    }
+                    _ => vec![NStruct { dates: [0; 12], name: b"s".to_vec(), elems }],
+                };
+                let ast = NLib { version: 600, name: b"ir".to_vec(), units: (encode_ref(1e-3).unwrap(), encode_ref(1e-9).unwrap()), structs, ..Default::default() };
                 let mut bytes = encode(&ast, &EncOpts::default()).out;
-                if cx.n % 2 == 1 {
+                if shape == 3 {
+                    // HEADER .. one SREF with STRANS, then `n` MAG records in a row, ANGLE, XY, ENDEL ...: legal record by record
+                    let sref = NElem { elflags: None, plex: None, kind: NKind::Sref { sname: b"t".to_vec(), strans: Some(NStrans { flags: 0, mag: Some(encode_ref(2.0).unwrap()), angle: None }), xy: vec![1, 2] }, props: vec![] };
+                    let one = NLib { version: 600, name: b"ir".to_vec(), units: (encode_ref(1e-3).unwrap(), encode_ref(1e-9).unwrap()), structs: vec![NStruct { dates: [0; 12], name: b"s".to_vec(), elems: vec![sref] }], ..Default::default() };
+                    let e = encode(&one, &EncOpts::default());
+                    let mag = e.offsets.iter().position(|o| e.out[*o + 2] == 0x1B).map(|i| (e.offsets[i], e.offsets[i + 1]));
+                    if let Some((a, b)) = mag {
+                        let mut v = e.out[..b].to_vec();
+                        for _ in 0..n {
+                            v.extend_from_slice(&e.out[a..b]);
+                        }
+                        v.extend_from_slice(&e.out[b..]);
+                        bytes = v;
+                    }
+                }
+                if k % 2 == 1 {
                     let l = bytes.len();
                     bytes[l - 2] = 0x7F; // ENDLIB's record type replaced: the reader walks the whole stream, then fails
                 }
